@@ -22,6 +22,7 @@ def run_program(env, mon, shape, sorts, Interrupt, initial_time=0, delays=None, 
     shared = [env.event() for _ in range(nshared)]
     procs, pend, term, nvar = {}, {}, {}, [0]
     shared_occ = {}
+    chained = {}
 
     def delay(pi=None, k=None):
         if fixed and '%d.%d' % (pi, k) in fixed:
@@ -107,6 +108,28 @@ def run_program(env, mon, shape, sorts, Interrupt, initial_time=0, delays=None, 
                         else:
                             ev.callbacks.insert(0, mon.probe(o))
                         ev.succeed(pi)
+                elif op == 'G':
+                    # the shared event is triggered through Event.trigger, chained behind a helper event: it becomes an
+                    # ordinary occurrence at the moment the helper is processed
+                    ev = shared[ins[1]]
+                    if not ev.triggered and not chained.get(ins[1]):
+                        chained[ins[1]] = True
+                        helper = env.event()
+
+                        def relay(h, ev=ev, k=ins[1]):
+                            if not ev.triggered:
+                                o2 = mon.trig('chained%d' % k, env.now, 1)
+                                if bare:
+                                    shared_occ[k] = o2
+                                    if not ev.callbacks:
+                                        o2.void = True
+                                else:
+                                    ev.callbacks.insert(0, mon.probe(o2))
+                                ev.trigger(h)
+                        oh = mon.trig('helper%d' % pi, env.now, 1)
+                        helper.callbacks.append(lambda h, oh=oh: mon.seen(oh))
+                        helper.callbacks.append(relay)
+                        helper.succeed(pi)
                 elif op == 'W':
                     was = shared[ins[1]].processed
                     yield shared[ins[1]]
@@ -222,6 +245,8 @@ def h_negdelay(cfg):
 HARNESSES = {'prog': h_prog, 'negdelay': h_negdelay}
 
 U_SHAPES = [
+    {'top': 2, 'scripts': [[['T'], ['G', 0], ['T']], [['W', 0], ['T']]]},
+    {'top': 3, 'scripts': [[['T'], ['G', 0]], [['T'], ['E', 1], ['T']], [['W', 0], ['W', 1]]]},
     {'top': 2, 'scripts': [[['T'], ['E', 0], ['Y', 1], ['T']], [['W', 0], ['T']]]},
     {'top': 3, 'scripts': [[['T'], ['Y', 0]], [['T'], ['T']], [['T'], ['E', 0]]]},
     {'top': 1, 'scripts': [[['U'], ['T']]]},
